@@ -1,7 +1,7 @@
 (* C11 part B - optimality instantiated: dijkstra_c / astar_c over any ordered cost type, then dijkstra_gen /
    astar_gen over Z in the vocabulary of C11.Paths (walk, is_dist), with boolean input conditions. *)
 From Coq Require Import List ZArith Bool Arith Lia.
-From SV Require Import C11.Paths C11.BestFirst C11.BestSpec C11.BestGraph C11.BestOrder
+From SV Require Import C11.Paths C11.BestFirst C11.BestSpec C11.BestGraph C11.BestOrder C11.BestHyps
   C11.BestProofs1 C11.BestProofs3 C11.BestProofs4 C11.BestProofsInst.
 Import ListNotations.
 
@@ -101,15 +101,6 @@ End CostInstances.
 
 (* ---- graphs over Z ---- *)
 Open Scope Z_scope.
-
-Definition nonneg_adj (adj : adjacency) : bool := forallb (forallb (fun e : nat * Z => 0 <=? snd e)) adj.
-
-(* heuristic table consistent on the graph and zero on the goal nodes *)
-Definition consistent_adj (adj : adjacency) (goals : list nat) (htab : list Z) : bool :=
-  forallb (fun ul : nat * list (nat * Z) =>
-             forallb (fun e : nat * Z => nth (fst ul) htab 0 <=? snd e + nth (fst e) htab 0) (snd ul))
-          (combine (seq 0 (length adj)) adj)
-  && forallb (fun t => nth t htab 0 =? 0) goals.
 
 Definition within_opt (max_cost : option Z) (d : Z) : Prop :=
   match max_cost with None => True | Some mc => d <= mc end.
